@@ -318,3 +318,74 @@ def replay_funiq(ctx, res):
             except Exception as ex:
                 done[fam] = {"reproduced": False, "outcome": "replayer error: %r" % (ex,)}
         o.replay = done[fam]
+
+
+FUNLINK_SCRIPT = r'''
+import sys, importlib, random
+fam = %(fam)r
+M = importlib.import_module("BTrees._%%sBTree" %% fam)
+bad = []
+def run(kind, sizes, order_name, order, n):
+    base = getattr(M, fam + kind)
+    class T(base):
+        max_leaf_size, max_internal_size = sizes
+    t = T()
+    isset = kind == "TreeSet"
+    for k in range(n):
+        t.add(k) if isset else t.__setitem__(k, %(val)s)
+    model = set(range(n))
+    for step, k in enumerate(order):
+        try:
+            t.remove(k) if isset else t.__delitem__(k)
+        except Exception as e:
+            bad.append("%%s%%s %%s/%%d keys, %%s: deleting %%r raised %%s" %% (fam, kind, sizes, n, order_name, k, type(e).__name__)); return
+        model.discard(k)
+        try:
+            got = list(t.keys())
+            t._check()
+        except Exception as e:
+            bad.append("%%s%%s %%s/%%d keys, %%s: after deleting %%r (step %%d): %%s: %%s" %% (fam, kind, sizes, n, order_name, k, step, type(e).__name__, e)); return
+        if got != sorted(model):
+            miss = sorted(model - set(got))[:6]
+            bad.append("%%s%%s %%s/%%d keys, %%s: after deleting %%r (step %%d) iteration misses %%r... (%%d keys instead of %%d)"
+                       %% (fam, kind, sizes, n, order_name, k, step, miss, len(got), len(model))); return
+for kind in ("BTree", "TreeSet"):
+    for sizes in ((2, 2), (2, 3), (3, 2)):
+        for n in (24, 96):
+            rnd = random.Random(7)
+            orders = {"ascending": list(range(n)), "descending": list(range(n - 1, -1, -1)),
+                      "leaf-by-leaf-from-the-middle": sorted(range(n), key=lambda k: (abs(k // 2 - n // 4), k)),
+                      "seeded": rnd.sample(range(n), n)}
+            for nm, o in orders.items():
+                run(kind, sizes, nm, o, n)
+print("\n".join(bad[:10]) or "no violation on the deletion histories")
+sys.exit(1 if bad else 0)
+'''
+
+
+def replay_funlink(ctx, res):
+    """F-UNLINK has no input of its own: the replay deletes every key of 3- and 4-level trees (node sizes 2 / 3)
+    of the family in four orders, comparing iteration and _check() with a set model after every step."""
+    import re
+    from lib import build
+    done = {}
+    for o in res.obligations:
+        if o.status not in ("refuted", "unknown") or not o.name.startswith("F-UNLINK"):
+            continue
+        fm = re.match(r"\[(\w\w)\]", o.detail or "")
+        if not fm:
+            continue
+        fam = fm.group(1)
+        if fam not in done:
+            script = FUNLINK_SCRIPT % {"fam": fam, "val": {"O": "'v'", "F": "1.5"}.get(fam[1], "7")}
+            try:
+                bdir = build.build((fam,))
+                e = dict(os.environ, PYTHONPATH=bdir + os.pathsep + VERIF)
+                p = subprocess.run([PY, "-c", script], env=e, capture_output=True, text=True, timeout=300)
+                crashed = p.returncode < 0
+                done[fam] = {"reproduced": p.returncode == 1 or crashed,
+                             "outcome": ("the interpreter was killed by signal %d: " % -p.returncode if crashed else "") +
+                             (p.stdout + p.stderr)[-1500:], "script": script, "families": [fam]}
+            except Exception as ex:
+                done[fam] = {"reproduced": False, "outcome": "replayer error: %r" % (ex,)}
+        o.replay = done[fam]
